@@ -204,11 +204,21 @@ def run_units(prop, units, default_timeout=600, splitter=None):
                 tmo = u.get("timeout", default_timeout) if isinstance(u, dict) else default_timeout
                 if attempt >= 2:
                     tmo = min(tmo, 60)
-                status, res = w.call(u, tmo)
+                try:
+                    status, res = w.call(u, tmo)
+                except Exception as e:  # noqa  (never let a supervisor thread die with a unit in flight)
+                    status, res = "crash", None
+                    sys.stderr.write(f"supervisor: {type(e).__name__}: {e}\n")
                 if status != "ok":
                     tail = w.err_tail()
                     w.kill()
-                    w = Worker(prop, workdir, idx)
+                    for _try in range(3):
+                        try:
+                            w = Worker(prop, workdir, idx)
+                            break
+                        except Exception as e:  # noqa
+                            sys.stderr.write(f"supervisor: cannot start worker: {type(e).__name__}: {e}\n")
+                            time.sleep(1.0)
                     if attempt == 0:
                         q.put((i, u, 1))  # re-run alone once (fresh worker)
                         continue
